@@ -23,7 +23,8 @@ SHRINK_LISTS = [('pre',), ('mid',), ('in_closing',), ('cuts',)]
 EXPECTED_PROBES = ['client_first', 'server_first', 'crossing',
                    'close_before_ready', 'second_close', 'send_refused',
                    'sent_inside_closing', 'app_close_inside_closing',
-                   'message_between_closes', 'empty_close_payload']
+                   'message_between_closes', 'empty_close_payload',
+                   'after_bad_close_on_earlier_connection']
 
 CODES = [1000, 1001, 1002, 1003, 1007, 1008, 1009, 1010, 1011, 3000, 4999]
 
@@ -106,6 +107,12 @@ def make_case(family, i, rng, tier):
                        {'op': 'close', 'code': rng.choice([1000, 1001, 4000]),
                         'reason': 'app says bye'})
         case['in_closing'] = ops
+    if rng.random() < 0.15:
+        # an earlier connection on the same object that ended badly around a
+        # Close frame; nothing of it may influence the handshake under test
+        case['prelude'] = rng.choice(['close_truncated_reason',
+                                      'close_bad_utf8', 'eof_inside_close',
+                                      'close_1byte'])
     case.update(ST.seg_fields(rng))
     # keep the whole exchange well inside the 30 s close timeout
     case['gaps'] = [rng.choice([0, 0, 1000]) for _ in range(3)]
@@ -156,6 +163,18 @@ def build(case):
     sc = ST.stream_scenario(case, enc, tail, app=app,
                             connect={'ping_rate': 0, 'poll': 5,
                                      'close_timeout': 30})
+    pre = case.get('prelude')
+    if pre:
+        fr = {'close_truncated_reason': peer.enc_frame(8, b'\x03\xe8caf\xc3'),
+              'close_bad_utf8': peer.enc_frame(8, b'\x03\xe8\xff\xfe'),
+              'eof_inside_close': peer.enc_frame(8, b'\x03\xe8bye')[:3],
+              'close_1byte': peer.enc_frame(8, b'\x03')}[pre]
+        first = {'server': S.handshake_steps() + [S.send(fr),
+                                                  S.eof(after=1000)]}
+        sc['conns'] = [first] + sc['conns']
+        sc['n_connects'] = 2
+        for rule in sc.get('app') or []:
+            rule['when'] = dict(rule['when'], attempt=1)
     return sc, expected
 
 
@@ -175,6 +194,17 @@ def execute(case):
     res.sim_us = tr.world.now
     res.digest = tr.digest()
     kind = case['kind']
+    if case.get('prelude'):
+        res.stats['probe:after_bad_close_on_earlier_connection'] += 1
+        last = oracle.split_attempts(tr.events)[-1]
+        first_idx = last[0].index
+        tr.events = last
+        tr.calls = [c for c in tr.calls if c.at_event >= first_idx]
+        for e in tr.events:
+            e.index -= first_idx
+        for c in tr.calls:
+            c.at_event -= first_idx
+        tr.finished = True
     names = tr.names()
     res.stats['probe:' + kind] += 1
     st = tr.world.socks[-1]
